@@ -11,14 +11,14 @@ variable {α κ : Type} [LinOrd κ]
 
 theorem insert_refines {key : α → κ} {P : Nat} {s : ASet α} (h : s.Inv key P) (x : α) :
     ∃ s' r, insert key P s x = some (s', r) ∧ s.insert key P x = .ok (s', r) ∧ s'.Inv key P := by
-  rw [insert_eq]
+  rw [insert_eq key P s h.len_le]
   rcases ASet.insert_spec h x with ⟨_, h2⟩ | ⟨_, _, s', h2, h3, _⟩
   · exact ⟨s, false, by rw [h2]; rfl, h2, h⟩
   · exact ⟨s', true, by rw [h2]; rfl, h2, h3⟩
 
 theorem take_refines {key : α → κ} {P : Nat} {s : ASet α} (h : s.Inv key P) (x : α) :
     ∃ s' r, take key P s x = some (s', r) ∧ s.take key (key x) = .ok (s', r) ∧ s'.Inv key P := by
-  rw [take_eq]
+  rw [take_eq key P s h.len_le]
   rcases ASet.take_spec h (key x) with ⟨_, h2⟩ | ⟨y, s', _, h2, h3, _⟩
   · exact ⟨s, none, by rw [h2]; rfl, h2, h⟩
   · exact ⟨s', some y, by rw [h2]; rfl, h2, h3⟩
@@ -26,7 +26,7 @@ theorem take_refines {key : α → κ} {P : Nat} {s : ASet α} (h : s.Inv key P)
 theorem get_refines {key : α → κ} {P : Nat} {s : ASet α} (h : s.Inv key P) (x : α) :
     get key P s x = some (findK key (key x) s.view) ∧
     contains key P s x = some (findK key (key x) s.view).isSome := by
-  rw [contains_eq, get_eq]
+  rw [contains_eq key P s h.len_le, get_eq key P s h.len_le]
   unfold ASet.contains
   rw [ASet.get_spec h (key x)]
   exact ⟨rfl, rfl⟩
